@@ -44,6 +44,8 @@ type mvar struct {
 }
 
 var fullModels = []mvar{{"m1", "m1", "sha256:aaaa"}, {"m1#d2", "m1", "sha256:bbbb"}, {"M1", "M1", ""}, {"m2", "m2", "sha256:cccc"}, {"a::b", "a::b", ""}, {"x*", "x*", ""}}
+// two names carrying the same digest (an Ollama copy: `ollama cp m1 m3`) next to an unrelated model
+var digestModels = []mvar{{"m1", "m1", "sha256:aaaa"}, {"m3=m1", "m3", "sha256:aaaa"}, {"m2", "m2", "sha256:cccc"}}
 var smallModels = []mvar{{"m1", "m1", "sha256:aaaa"}, {"m1#d2", "m1", "sha256:bbbb"}, {"m2", "m2", "sha256:cccc"}}
 
 func (m mvar) info() *domain.ModelInfo {
@@ -120,12 +122,26 @@ func newRegistry(kind string) domain.ModelRegistry {
 
 type ref map[int]map[string]bool // endpoint -> set of names (last accepted listing)
 
+// refDigests: endpoint -> digests carried by the entries of its last accepted listing; everDigests: name -> digests
+// that name has carried anywhere in the current history. The unifier treats entries with equal digests as one
+// model whatever they are called (and keeps the names as aliases), so a lookup by name n may also return an
+// endpoint whose last listing contains an entry with a digest that n has carried.
+var refDigests = map[int]map[string]bool{}
+var everDigests = map[string]map[string]bool{}
+
+func resetRefSide() {
+	refEntries = map[int]int{}
+	refDigests = map[int]map[string]bool{}
+	everDigests = map[string]map[string]bool{}
+}
+
 var refEntries = map[int]int{} // endpoint -> number of entries in the last accepted listing (duplicates counted, as reported)
 
 func (r ref) apply(o op) {
 	if o.remove {
 		delete(r, o.ep)
 		delete(refEntries, o.ep)
+		delete(refDigests, o.ep)
 		return
 	}
 	if o.bad == "empty-name" {
@@ -138,10 +154,21 @@ func (r ref) apply(o op) {
 	if len(s) == 0 {
 		delete(r, o.ep)
 		delete(refEntries, o.ep)
+		delete(refDigests, o.ep)
 		return
 	}
 	r[o.ep] = s
 	refEntries[o.ep] = len(o.listing)
+	refDigests[o.ep] = map[string]bool{}
+	for _, m := range o.listing {
+		if m.digest != "" {
+			refDigests[o.ep][m.digest] = true
+			if everDigests[m.name] == nil {
+				everDigests[m.name] = map[string]bool{}
+			}
+			everDigests[m.name][m.digest] = true
+		}
+	}
 }
 
 func do(reg domain.ModelRegistry, o op) error {
@@ -161,7 +188,7 @@ func do(reg domain.ModelRegistry, o op) error {
 	return reg.RegisterModels(ctx, epURL(o.ep), l)
 }
 
-var probeNames = []string{"m1", "M1", "m2", "a::b", "x*", "zz"}
+var probeNames = []string{"m1", "M1", "m2", "m3", "a::b", "x*", "zz"}
 
 func setStr(m map[string]bool) string {
 	var l []string
@@ -230,6 +257,16 @@ func check(kind string, reg domain.ModelRegistry, r ref, neps int) *viol {
 					for have := range s {
 						if strings.EqualFold(have, n) {
 							ok = true
+						}
+					}
+					for nm, ds := range everDigests {
+						if !strings.EqualFold(nm, n) {
+							continue
+						}
+						for d := range refDigests[e] {
+							if ds[d] {
+								ok = true // same binary under another name (digest identity)
+							}
 						}
 					}
 				}
@@ -351,7 +388,7 @@ func runHistory(kind string, h []op, neps int) (*viol, int) {
 	out := vsched.Run(nil, 2000000, func() {
 		reg := newRegistry(kind)
 		r := ref{}
-		refEntries = map[int]int{}
+		resetRefSide()
 		for i, o := range h {
 			do(reg, o)
 			r.apply(o)
@@ -454,7 +491,7 @@ func scenarioAsync(kind string, h []op, neps int) explore.Scenario {
 			v = nil
 			reg := newRegistry(kind)
 			r := ref{}
-			refEntries = map[int]int{}
+			resetRefSide()
 			for _, o := range h {
 				do(reg, o)
 				r.apply(o)
@@ -660,6 +697,7 @@ func main() {
 	for _, kind := range []string{"plain", "unified"} {
 		e1a(kind, 2, fullModels, depthFull, "full-alphabet-2ep")
 		e1a(kind, 3, smallModels, depthSmall, "small-alphabet-3ep")
+		e1a(kind, 2, digestModels, depthFull, "shared-digest-2ep")
 	}
 	for _, kind := range []string{"plain", "unified"} {
 		e1b(kind)
